@@ -51,7 +51,8 @@ func c17New(withHeader bool) *c17Env {
 	s := NewSimpleHTTPWithClientAndInterceptors(&http.Client{Transport: e.tr})
 	e.api = NewSimpleAPIWithSimpleHTTP("http://h", s)
 	if withHeader {
-		e.api.DefaultHeader = http.Header{"X-Default": []string{"d1"}}
+		// one single-valued field and one field holding two values
+		e.api.DefaultHeader = http.Header{"X-Default": []string{"d1"}, "X-Multi": []string{"m1", "m2"}}
 		if vfChoose("default-header-has-content-type", 2) == 1 {
 			e.api.DefaultHeader.Set("Content-Type", "text/plain")
 		}
@@ -139,6 +140,8 @@ func c17CheckRequestP(e *c17Env, ix int, method, wantRel, wantBody, wantCT strin
 	vfAssert("url", seen.url == wu.String())
 	if e.api.DefaultHeader != nil {
 		vfAssert("default-header-content", seen.header.Get("X-Default") == "d1")
+		mv := seen.header.Values("X-Multi")
+		vfAssert("default-header-content", len(mv) == 2 && mv[0] == "m1" && mv[1] == "m2")
 		vfAssert("default-header-is-a-copy", !vfSameStorage(seen.header, e.api.DefaultHeader))
 		seen.header.Set("X-Default", "mutated")
 		seen.header.Add("X-New", "n")
